@@ -276,3 +276,39 @@ package dataflow
 //@   loop block invariant done_blocks: bi < iter(block) ==> Wedge()
 //@   loop instr invariant in_block: (bi < iter(block) ==> Wedge()) && (bi == iter(block) && 0 < iter(instr) ==> Wedge()) && (prevInstr == nil <==> iter(instr) == 0)
 //@   loop pred invariant in_preds: (bi < iter(block) ==> Wedge()) && (bi == iter(block) && iter(instr) == 0 && pk < iter(pred) ==> Wedge())
+
+// ---------------------------------------------------------------------------
+// C02 (validator half): the conditions attached to an edge are used to DROP the
+// edge when one of them is a successful validator check, so each of them has to
+// hold on EVERY control-flow path from the source instruction to the destination
+// (onEveryPath: the branch `v == pos` is taken on all paths begin -> end). The
+// code collects the conditions of ONE path found by a depth-first search; the
+// clause must_condition is therefore not provable and is a recorded known finding
+// (reproducer: /verif/findings/C02_validator_bypass).
+//@ spec onEveryPath(begin ssa.Instruction, end ssa.Instruction, v ssa.Value, pos bool) bool
+//@ func newImpossiblePath
+//@   property C02
+//@   ensures !result.Cond.Satisfiable && len(result.Cond.Conditions) == 0
+
+// Every condition of SimplePathCondition is the condition of an If that ends a block
+// of the path, with the polarity of the successor the path takes next.
+//@ macro lastOf(b) = b.Instrs[len(b.Instrs) - 1]
+//@ spec fromStep(path []*ssa.BasicBlock, i int, v ssa.Value, pos bool) bool = 0 <= i && i < len(path) - 1 && len(path[i].Instrs) > 0 && istype(lastOf(path[i]), *ssa.If) && v == lastOf(path[i]).(*ssa.If).Cond && ((pos && path[i + 1].Index == path[i].Succs[0].Index) || (!pos && path[i + 1].Index != path[i].Succs[0].Index && path[i + 1].Index == path[i].Succs[1].Index))
+//@ func SimplePathCondition
+//@   property C02
+//@   requires forall i int :: 0 <= i && i < len(path) ==> path[i] != nil
+//@   ensures satisfiable: result.Satisfiable
+//@   ensures polarity: forall k int :: 0 <= k && k < len(result.Conditions) ==> exists i int :: fromStep(path, i, result.Conditions[k].Value, result.Conditions[k].IsPositive)
+//@   loop block invariant inv: forall k int :: 0 <= k && k < len(conditions) ==> exists i int :: fromStep(path, i, conditions[k].Value, conditions[k].IsPositive)
+
+// Assumed (depth-first search over a block tree, not verified): the blocks of a found path exist.
+//@ func FindPathBetweenBlocks
+//@   property C02
+//@   assumed
+//@   ensures forall i int :: 0 <= i && i < len(result) ==> result[i] != nil
+
+//@ func FindIntraProceduralPath
+//@   property C02
+//@   requires begin != nil && end != nil
+//@   ensures same_function: result.Cond.Satisfiable ==> begin.Parent() == end.Parent()
+//@   ensures must_condition: forall k int :: 0 <= k && k < len(result.Cond.Conditions) ==> onEveryPath(begin, end, result.Cond.Conditions[k].Value, result.Cond.Conditions[k].IsPositive)
